@@ -79,7 +79,12 @@ def gen_cases(rng, tier):
             elif r < 0.45: steps.append({'op': 'str', 's': rng.choice(pool_s) if rng.random() < 0.8 else pool_s[i % K], 'cls': rng.choice(CLASSES), 'mutate': rng.random() < 0.3})
             elif r < 0.65: steps.append({'op': 'fmt', 'f': rng.choice(pool_f)})
             elif r < 0.85: steps.append({'op': 'dtype', 'd': rng.choice(pool_d)})
-            elif r < 0.93: steps.append({'op': 'pack', 'f': rng.choice(['uint:8, hex', 'e4m3mxfp, uint:4', 'ue, se', 'float:32']), 'v': rng.choice([1, 300, 500.0])})
+            elif r < 0.89: steps.append({'op': 'pack', 'f': rng.choice(['uint:8, hex', 'e4m3mxfp, uint:4', 'ue, se', 'float:32']), 'v': rng.choice([1, 300, 500.0])})
+            elif r < 0.93:
+                # list formats (each item is parsed, and cached, on its own) mixed with the same items used alone, and unpack / readlist
+                items = ['uint:8', 'hex:8', 'int:4=-3', 'oct:6=17', 'bin:3', 'uint:w', '2*uint:4']
+                k = rng.choice([1, 1, 2, 3])
+                steps.append({'op': 'packlist', 'f': [rng.choice(items) for _ in range(k)], 'how': rng.choice(['pack', 'pack', 'unpack', 'readlist'])})
             else: steps.append({'op': 'find', 'bits': rand_bits(rng, 24), 'pat': rand_bits(rng, 8)})
         yield {'op': 'history', 'steps': steps}
 
@@ -109,6 +114,18 @@ def do_call(st):
     if op == 'pack':
         n = st['f'].count(',') + 1
         return pack(st['f'], *([st['v']] * n)).bin
+    if op == 'packlist':
+        f = st['f']; fmt = f if len(f) > 1 else f[0]
+        if st['how'] == 'pack':
+            vals = []
+            for it in f:
+                if '=' in it: continue
+                vals += {'uint:8': [7], 'hex:8': ['a5'], 'bin:3': ['101'], 'uint:w': [9], '2*uint:4': [1, 2]}[it]
+            return pack(fmt, *vals, w=8).bin
+        f2 = [it.split('=')[0].replace('uint:w', 'uint:8') for it in f]
+        fmt = f2 if len(f2) > 1 else f2[0]
+        data = bitstring.ConstBitStream(bin='1011001110001111' * 8)
+        return [repr(x) for x in (data.unpack(fmt) if st['how'] == 'unpack' else data.readlist(fmt))]
     if op == 'find':
         return list(Bits(bin=st['bits'] + st['pat'] + '0000').find(Bits(bin=st['pat'])))
 
